@@ -130,6 +130,11 @@ func faultPositions(r *vh.Rng, v iox.Variant, in []byte) []faultDesc {
 		}
 		start = end + 1
 	}
+	if v.Fixed {
+		for k := 0; k < 9 && n > 0; k++ {
+			out = append(out, faultDesc{Pos: r.Pick(n + 1), Where: "sample-sweep"})
+		}
+	}
 	if n > 0 {
 		out = append(out, faultDesc{Pos: n - 1, Where: "last-byte"})
 		out = append(out, faultDesc{Pos: n, Where: "at-the-end"})
@@ -515,8 +520,17 @@ func main() {
 	}
 
 	total := o.Count(330, 3000)
+	var hier []iox.Variant
+	for _, v := range e.variants {
+		if v.Hier {
+			hier = append(hier, v)
+		}
+	}
 	for c := 0; c < total && !e.hung; c++ {
 		v := e.variants[r.Pick(len(e.variants))]
+		if len(hier) > 0 && r.Chance(0.2) {
+			v = hier[r.Pick(len(hier))]
+		}
 		gi := iox.GenInputForFaults(r, v)
 		in, kind := gi.In, gi.Kind
 		e.checkInput(r, v, in, kind)
